@@ -63,6 +63,8 @@ FAMILIES = {
     # strict family: no streams, ArrayRef may fail -> error behaviour must be equal as well
     'strict': dict(kinds=['SUB', 'LT', 'IF', 'LET', 'MKS', 'GETA', 'MKA', 'AREF', 'ALEN'], roots='iat',
                    if_types='ia', let_types='ia', leaves={'i': ['x', 'c'], 'b': ['p'], 'a': ['A'], 's': ['SA']}),
+    'strict4': dict(kinds=['SUB', 'IF', 'LET', 'AREF', 'MKA'], roots='ia', if_types='i', let_types='i',
+                    leaves={'i': ['x', 'c'], 'b': ['p'], 'a': ['A']}),
     # aggregation family: StreamAgg nests anywhere; Let vs AggLet placement is decided by evaluation
     'agg': dict(kinds=['LSUB', 'LLT', 'LETL', 'IFL', 'TOSL', 'SMAPL', 'SUM', 'AGGF', 'SAGG'], roots='l',
                 if_types='', let_types='', leaves={'b': ['p'], 'l': ['y', 'd'], 'B': ['B'], 'S': ['SB']}),
